@@ -1,4 +1,184 @@
-import DuneVerif.Model.C18
+/-
+C18 — property theorems (path.cc, path.hh, stringutility.hh).  Statements only; lemmas live in Proofs/C18/.
+
+All theorems are about the character-level functions the driver runs (`processPathC`, `prettyPath`,
+`pathIndicatesDirectory`, `concatPaths`, `relativePath`, `hasPrefix`, `hasSuffix`, `formatString`) and hold
+for ALL strings (`Str = List Char`), of any length.
+-/
+import DuneVerif.Proofs.C18.Extras
+
 namespace DV.C18
-theorem placeholder : True := trivial
+
+/-! ## processPath -/
+
+/-- refinement: the pass-by-pass transcription of `processPath` computes the component-level specification
+    (split at '/', drop empty and "." components, resolve ".." with a stack clamped at the root, render). -/
+theorem processC_eq_S (p : Str) : processPathC p = processPathS p := processPathC_eq_S p
+
+example : processPathC ['a', '/', '.', '.', '/', '.', '.', '/', '/', 'b', '/', '.', '/', 'c'] = ['.', '.', '/', 'b', '/', 'c', '/'] := by decide
+example : processPathS ['a', '/', '.', '.', '/', '.', '.', '/', '/', 'b', '/', '.', '/', 'c'] = ['.', '.', '/', 'b', '/', 'c', '/'] := by decide
+
+/-- the result is in the documented normal form: optional root, ".." components only leading and only in a
+    relative path, then proper names (non-empty, no '/', not "." or ".."), each component followed by one '/'. -/
+theorem normal_form (p : Str) : NormalForm (processPathC p) := by
+  rw [processC_eq_S]; exact normalForm_processPathS p
+
+example : NormalForm ['.', '.', '/', 'b', '/'] :=
+  ⟨⟨false, 1, [['b']]⟩, ⟨by simp, by intro n hn; simp at hn; subst hn; unfold IsName dot dotdot; decide⟩, by decide⟩
+example : ¬ NormalForm ['a', '/', '.', '.', '/'] := by
+  intro h
+  have := processPathS_of_normalForm h
+  revert this; decide
+
+/-- the result denotes the same location as the input -/
+theorem denote_preserved (p : Str) : denote (processPathC p) = denote p := by
+  rw [processC_eq_S]; exact denote_processPathS p
+
+example : denote ['/', 'a', '/', '.', '.', '/', '.', '.', '/', 'b'] = ⟨true, 0, [['b']]⟩ := by decide
+
+/-- sanitising twice is sanitising once -/
+theorem idempotent (p : Str) : processPathC (processPathC p) = processPathC p := by
+  rw [processC_eq_S (processPathC p), processC_eq_S p]
+  exact processPathS_of_normalForm (normalForm_processPathS p)
+
+/-- the normal forms are exactly the fixed points -/
+theorem normalForm_iff_fixed (s : Str) : NormalForm s ↔ processPathC s = s := by
+  constructor
+  · intro h; rw [processC_eq_S]; exact processPathS_of_normalForm h
+  · intro h; rw [← h]; exact normal_form s
+
+/-- an absolute path stays absolute and its result has no ".." component: it never escapes the root -/
+theorem abs_never_escapes_root (p : Str) (h : p.head? = some '/') :
+    (processPathC p).head? = some '/' ∧ dotdot ∉ splitSlash (processPathC p) ∧ (denote p).ups = 0 := by
+  have habs : (denote p).abs = true := by rw [denote_abs]; simp [isAbs, h]
+  have hv := denote_valid p
+  have hu : (denote p).ups = 0 := hv.1 habs
+  rw [processC_eq_S]
+  unfold processPathS render
+  rw [habs, hu]
+  simp only [↓reduceIte, List.replicate_zero, List.nil_append, List.cons_append, List.head?_cons, true_and, and_true]
+  rw [splitSlash_cons_slash, splitSlash_joinSlash _ (fun c hc => (hv.2 c hc).2.1)]
+  intro hm
+  simp only [List.mem_cons, List.mem_append, List.not_mem_nil, or_false] at hm
+  rcases hm with hm | hm | hm
+  · exact absurd hm (by decide)
+  · exact (hv.2 _ hm).2.2.2 rfl
+  · exact absurd hm (by decide)
+
+example : processPathC ['/', '.', '.', '/', '.', '.', '/', 'a'] = ['/', 'a', '/'] := by decide
+
+/-! ## prettyPath, pathIndicatesDirectory, concatPaths -/
+
+/-- prettyPath follows the documented table (`prettySpec`, read off the denoted location) for every input -/
+theorem pretty_table (p : Str) (isDirectory : Bool) : prettyPath p isDirectory = prettySpec (denote p) isDirectory :=
+  prettyWith_render (denote p) (denote_valid p) isDirectory processPathC p (processC_eq_S p)
+
+/-- the one-argument form decides `isDirectory` with pathIndicatesDirectory -/
+theorem pretty_auto (p : Str) : prettyPathAuto p = prettySpec (denote p) (pathIndicatesDirectory p) :=
+  pretty_table p _
+
+example : prettyPath ['a', '/', '/', '/', 'b'] false = ['a', '/', 'b'] := by decide
+example : prettyPath ['a', '/', '.', '.'] true = ['.'] := by decide
+example : prettyPath ['.', '.', '/', 'a', '/', '.', '.'] true = ['.', '.'] := by decide
+example : prettyPathAuto ['/', '.', '.', '/', 'a', '/'] = ['/', 'a', '/'] := by decide
+
+/-- a path indicates a directory iff its last piece (after the last '/') is empty, "." or ".." -/
+theorem indicatesDirectory_spec (p : Str) : pathIndicatesDirectory p = true ↔
+    ∃ c, (splitSlash p).getLast? = some c ∧ (c = [] ∨ c = dot ∨ c = dotdot) :=
+  indicatesDirectory_lastPiece p
+
+example : pathIndicatesDirectory ['a', '/', '.', '.'] = true := by decide
+example : pathIndicatesDirectory ['a', '/', '.', '.', '.'] = false := by decide
+
+/-- concatPaths follows its table: an absolute `p` wins; an empty operand yields the other one; otherwise the
+    two are joined with exactly one '/' between them unless `base` already ends in one -/
+theorem concat_spec (base p : Str) :
+    concatPaths base p =
+      if p = [] then base
+      else if p.head? = some '/' then p
+      else if base = [] then p
+      else if base.getLast? = some '/' then base ++ p
+      else base ++ '/' :: p := by
+  unfold concatPaths
+  by_cases h : hasSuffix base ['/'] = true
+  · have := (hasSuffix_slash_iff base).1 h
+    simp [h, this]
+  · have h' : ¬ base.getLast? = some '/' := fun e => h ((hasSuffix_slash_iff base).2 e)
+    simp [h, h']
+
+/-- what the table means: an absolute `p` is returned as is, a relative `p` is walked from where `base` leads -/
+theorem concat_denote (base p : Str) :
+    denote (concatPaths base p) = if isAbs p then denote p else (comps p).foldl Loc.walk (denote base) := by
+  cases h : isAbs p with
+  | true => simp [denote_concat_abs base p h]
+  | false => simpa using denote_concat_rel base p h
+
+/-- the remark in path.hh: if both operands are sanitised and `p` has no leading "../", the result is sanitised -/
+theorem concat_sanitized (base p : Str) (hb : NormalForm base) (hp : NormalForm p)
+    (hup : hasPrefix p ['.', '.', '/'] = false) : NormalForm (concatPaths base p) :=
+  concat_normalForm base p hb hp hup
+
+example : concatPaths ['a'] ['b', '/'] = ['a', '/', 'b', '/'] := by decide
+example : concatPaths ['a', '/'] ['b'] = ['a', '/', 'b'] := by decide
+example : concatPaths ['a'] ['/', 'b'] = ['/', 'b'] := by decide
+
+/-! ## relativePath -/
+
+/-- whenever a relative path is reported to exist, concatenating it back onto the base denotes the target -/
+theorem relative_roundtrip (newbase p r : Str) (h : relativePath newbase p = .ok r) :
+    denote (concatPaths newbase r) = denote p := by
+  have hfun : processPathC = processPathS := funext processC_eq_S
+  have h' : relativePathS newbase p = .ok r := by
+    unfold relativePath at h; unfold relativePathS; rw [← hfun]; exact h
+  obtain ⟨h1, h2⟩ := relative_core newbase p r h'
+  rw [denote_concat_rel newbase r h1, h2]
+
+/-- the reported relative path is itself relative and sanitised -/
+theorem relative_result_relative (newbase p r : Str) (h : relativePath newbase p = .ok r) : isAbs r = false := by
+  have hfun : processPathC = processPathS := funext processC_eq_S
+  have h' : relativePathS newbase p = .ok r := by
+    unfold relativePath at h; unfold relativePathS; rw [← hfun]; exact h
+  exact (relative_core newbase p r h').1
+
+/-- a relative path is reported exactly under the documented conditions: both paths absolute or both relative,
+    and the sanitised base has no more leading ".." components than the sanitised target -/
+theorem relative_defined_iff (newbase p : Str) :
+    (∃ r, relativePath newbase p = .ok r) ↔ (isAbs newbase = isAbs p ∧ (denote newbase).ups ≤ (denote p).ups) := by
+  have hfun : processPathC = processPathS := funext processC_eq_S
+  have : relativePath newbase p = relativePathS newbase p := by
+    unfold relativePath relativePathS; rw [hfun]
+  rw [this]; exact relative_defined newbase p
+
+example : relativePath ['a', '/', 'b'] ['a', '/', 'c', '/', 'd'] = .ok ['.', '.', '/', 'c', '/', 'd', '/'] := by decide
+example : relativePath ['/', 'a'] ['/'] = .ok ['.', '.', '/'] := by decide
+example : relativePath ['.', '.'] ['a'] = .notImplemented := by decide
+example : relativePath ['/', 'a'] ['a'] = .notImplemented := by decide
+
+/-! ## stringutility.hh -/
+
+/-- hasPrefix agrees with its plain definition for operands of any length -/
+theorem hasPrefix_iff (c pre : Str) : hasPrefix c pre = true ↔ ∃ t, c = pre ++ t := by
+  rw [hasPrefix_iff_isPrefix]
+  exact ⟨fun ⟨t, ht⟩ => ⟨t, ht.symm⟩, fun ⟨t, ht⟩ => ⟨t, ht.symm⟩⟩
+
+/-- hasSuffix agrees with its plain definition for operands of any length -/
+theorem hasSuffix_iff (c suf : Str) : hasSuffix c suf = true ↔ ∃ t, c = t ++ suf := by
+  rw [hasSuffix_iff_isSuffix]
+  exact ⟨fun ⟨t, ht⟩ => ⟨t, ht.symm⟩, fun ⟨t, ht⟩ => ⟨t, ht.symm⟩⟩
+
+example : hasPrefix ['a', 'b', 'c'] ['a', 'b'] = true ∧ hasPrefix ['a', 'b'] ['a', 'b', 'c'] = false := by decide
+example : hasSuffix ['a', 'b', 'c'] ['b', 'c'] = true ∧ hasSuffix ['c'] ['b', 'c'] = false := by decide
+
+/-- formatString returns the complete formatted text whatever its length: below the 1000-byte stack buffer,
+    exactly at it (999, 1000, 1001) or far beyond -/
+theorem formatString_any_length (ideal : Str) : formatString ideal = ideal := formatString_eq ideal
+
+/-- the first `snprintf` really truncates at the buffer size, so the heap branch is needed (non-vacuity) -/
+example (ideal : Str) (h : 1000 ≤ ideal.length) : (snprintfM bufferSize ideal).1 ≠ ideal := by
+  intro e
+  have := congrArg List.length e
+  simp [snprintfM, bufferSize] at this
+  omega
+example : formatString (List.replicate 1000 'a') = List.replicate 1000 'a' := formatString_any_length _
+
 end DV.C18
